@@ -404,7 +404,29 @@ def check_pre(run, db):
     return n
 
 
+CURSOR_OWNERS = ('static_block_allocator', 'virtual_block_allocator', 'detail::fixed_memory_stack', 'memory_stack', 'iteration_allocator',
+                 'static_allocator', 'memory_pool_collection', 'memory_pool', 'memory_arena', 'detail::memory_block_stack', 'detail::memory_arena_cache')
+
+
+def check_cursor_owner_moves(run, db):
+    """the objects that hand memory out by moving a cursor keep cursor, end and block size together when they are moved or
+    swapped (a cursor over one buffer with the other object's block size rewinds across live blocks): coverage / source-reset /
+    counter-exchange rules of C12 restricted to these classes, reported as R-BOUND.move"""
+    from rules import c12, c05
+    rr = c05._Renamed(run, 'R-BOUND.move')
+    n = 0
+    for cls, ops in sorted(c12.classes_with_moves(db).items()):
+        if cls not in db.classes or cls_template(cls) not in CURSOR_OWNERS:
+            continue
+        n += 1
+        c12.check_coverage(rr, db, cls, ops)
+        c12.check_emptiness(rr, db, cls, ops)
+        c12.check_swap_exchanges(rr, db, cls, ops)
+    return n
+
+
 def run(run):
+    run.rule('R-BOUND.move', 'cursor, region end and block size of the bump allocators travel together through move and swap', floor=10)
     run.rule('R-RUN', 'an array handed out by the intrusive lists covers the requested bytes: the search accounts the interval exactly (shared with C02/C04)', floor=2)
     run.rule('R-BOUND', 'cursor advance == checked amount, against the end of the same region', floor=10)
     run.rule('R-CONSUME', 'inserted observer-derived regions are consumed from the stack on all paths; no observer is returned', floor=10)
@@ -428,6 +450,8 @@ def run(run):
             run.broke('free list functions not found [%s]' % cfg)
         if unlink.check_cursor_reset(run, db) < 3:
             run.broke('ordered list constructors / swap not found [%s]' % cfg)
+        if check_cursor_owner_moves(run, db) < 6:
+            run.broke('bump allocators with move operations not found [%s]' % cfg)
         from rules import c02
         if c02.check_run(run, db) < 2:
             run.broke('array search functions not found [%s]' % cfg)
